@@ -47,7 +47,8 @@ __CPROVER_ensures(gh_n_resume == __CPROVER_old(gh_n_resume))
 #define CV_LOOP_qi_flush_0 \
   __CPROVER_assigns(CV_LOOP_LOCALS_qi_flush_0, MODEL_ASSIGNS) \
   __CPROVER_loop_invariant(FLUSH_INV(__CPROVER_loop_entry(gh_n_resume), __CPROVER_loop_entry(dq_npop))) \
-  __CPROVER_loop_invariant(gh_RK < __CPROVER_loop_entry(gh_n_resume) ==> gh_res_trk == __CPROVER_loop_entry(gh_res_trk))
+  __CPROVER_loop_invariant(gh_RK < __CPROVER_loop_entry(gh_n_resume) ==> gh_res_trk == __CPROVER_loop_entry(gh_res_trk)) \
+  __CPROVER_loop_invariant(dq_npush == __CPROVER_loop_entry(dq_npush))
 void qi_flush(QIMPL_T *this_)
 __CPROVER_requires(Q_PRE && this_ == QIMPL)
 __CPROVER_assigns(MODEL_ASSIGNS_BASE)      /* as an abstract callee the drain does not touch the caller's DIRECT push/resume counters of gh_X */
@@ -55,6 +56,7 @@ __CPROVER_ensures(dq_head == dq_tail)                                           
 __CPROVER_ensures(FLUSH_INV(__CPROVER_old(gh_n_resume), __CPROVER_old(dq_npop)))
 __CPROVER_ensures(QI == __CPROVER_old(QI))
 __CPROVER_ensures(gh_RK < __CPROVER_old(gh_n_resume) ==> gh_res_trk == __CPROVER_old(gh_res_trk))   /* earlier log entries are history */
+__CPROVER_ensures(dq_npush == __CPROVER_old(dq_npush))                                          /* the drain itself queues nothing */
 ;
 #endif
 
@@ -71,6 +73,7 @@ __CPROVER_ensures((__CPROVER_old(QI) != 0 && gh_DK < __CPROVER_old(dq_tail)) ==>
 /* normal mode: h runs first, then everything that became ready; no ready coroutine is left un-run; mode restored */
 __CPROVER_ensures(__CPROVER_old(QI) == 0 ==> (dq_head == dq_tail && gh_n_resume >= __CPROVER_old(gh_n_resume) + 1))
 __CPROVER_ensures((__CPROVER_old(QI) == 0 && gh_RK == __CPROVER_old(gh_n_resume)) ==> gh_res_trk == h)
+__CPROVER_ensures(__CPROVER_old(QI) == 0 ==> dq_npush == __CPROVER_old(dq_npush))        /* ... and is not queued as well (it would run twice) */
 #ifdef CV_CHECK_C20
 __CPROVER_ensures(__CPROVER_old(QI) != 0 ==> gh_allocs == __CPROVER_old(gh_allocs))   /* C20-FINDING making a coroutine ready in coroutine mode must not allocate (the ready queue is a std::deque, which allocates a node every 64 pushes) */
 #endif
@@ -83,8 +86,14 @@ void cq_install_resume(cv_i8 *h)
 __CPROVER_requires(Q_PRE && h != 0)
 __CPROVER_assigns(MODEL_ASSIGNS, QI, *TLS_GUARD)
 __CPROVER_ensures(cv_exc_pending == 0 && QI == __CPROVER_old(QI))
-__CPROVER_ensures(dq_head == dq_tail && gh_n_resume >= __CPROVER_old(gh_n_resume) + 1)
+__CPROVER_ensures(gh_n_resume >= __CPROVER_old(gh_n_resume) + 1)
 __CPROVER_ensures(gh_RK == __CPROVER_old(gh_n_resume) ==> gh_res_trk == h)
+/* entered from normal code: everything that became ready has run on return; h itself is not queued as well */
+__CPROVER_ensures(__CPROVER_old(QI) == 0 ==> (dq_head == dq_tail && dq_npush == __CPROVER_old(dq_npush)))
+/* entered from a running coroutine (nested activation; coro_queue.h: "a new nested queue is installed ... Coroutines enqueued to previous
+ * queue are not scheduled until the nested queue is flushed"): what the CALLER has made ready must not start while the caller is still
+ * running (C05 clause 1) - no entry that was queued at the call is dequeued inside.  Stated over the one per-thread deque of the model. */
+__CPROVER_ensures((__CPROVER_old(QI) != 0 && __CPROVER_old(dq_head) < __CPROVER_old(dq_tail)) ==> dq_head == __CPROVER_old(dq_head))   /* C05-FINDING-nested-queue */
 ;
 #endif
 
@@ -137,5 +146,6 @@ __CPROVER_assigns(MODEL_ASSIGNS, QI, *TLS_GUARD)
 __CPROVER_ensures(cv_exc_pending == 0 && QI == __CPROVER_old(QI))
 __CPROVER_ensures(dq_head == dq_tail && gh_n_resume >= __CPROVER_old(gh_n_resume) + 1)
 __CPROVER_ensures(gh_RK == __CPROVER_old(gh_n_resume) ==> gh_res_trk == h)
+__CPROVER_ensures(dq_npush == __CPROVER_old(dq_npush))
 ;
 #endif
